@@ -328,7 +328,9 @@ def cross_crs_auto(run):
     tmp = run.tmpdir()
     utm, geo = CRS.from_epsg(32735), CRS.from_epsg(4326)
     rng = run.rng('cross-crs-auto')
-    for k, (sres, rres_deg, want) in enumerate(((10.0, 0.001, 'ref'), (100.0, 0.0001, 'src'), (30.0, 0.001, 'ref'))):
+    # (the fourth pair: the source stored south-up as well - it is flipped in its own CRS, the result stays on the north-up source grid)
+    for k, (sres, rres_deg, want, south) in enumerate(((10.0, 0.001, 'ref', False), (100.0, 0.0001, 'src', False), (30.0, 0.001, 'ref', False),
+                                                       (10.0, 0.001, 'ref', True))):
         sw = sh = 40 if want == 'ref' else 12
         sx0, sy0 = 500_000.0 + 40 * k, 6_500_000.0
         st = Affine(sres, 0, sx0, 0, -sres, sy0)
@@ -338,10 +340,11 @@ def cross_crs_auto(run):
         rw, rh = int(np.ceil((r_ + m - rx0) / rres_deg)) + 1, int(np.ceil((ry0 - (b - m)) / rres_deg)) + 1
         rt = Affine(rres_deg, 0, rx0, 0, -rres_deg, ry0)
         sp, rp = tmp / f'c18x_s{k}.tif', tmp / f'c18x_r{k}.tif'
-        for p_, tr, w_, h_, crs in ((sp, st, sw, sh, utm), (rp, rt, rw, rh, geo)):
+        st_file = Affine(sres, 0, sx0, 0, sres, sy0 - sh * sres) if south else st
+        for p_, tr, w_, h_, crs in ((sp, st_file, sw, sh, utm), (rp, rt, rw, rh, geo)):
             with rio.open(p_, 'w', driver='GTiff', width=w_, height=h_, count=1, dtype='float32', crs=crs, transform=tr, nodata=float('nan')) as ds:
                 ds.write(np.array([[[rng.randint(20, 200) for _ in range(w_)] for _ in range(h_)]], dtype='float32'))
-        case = dict(i=6_100_000 + k, op='auto grid across CRSs', src_res_m=sres, ref_res_deg=rres_deg, expected=want)
+        case = dict(i=6_100_000 + k, op='auto grid across CRSs', src_res_m=sres, ref_res_deg=rres_deg, expected=want, source_south_up=south)
         try:
             with warnings.catch_warnings():
                 warnings.simplefilter('ignore')
